@@ -277,7 +277,7 @@ def subset_case(case, rec, ssj):
         if extra:
             rec.violation('refinement', '%s: PositionFilter.filter_tables(n_jobs=%d) keeps %r which %s with '
                           'the same parameters on the same tables does not' % (fspec, n_jobs,
-                                                                               sorted(extra)[:3], other),
+                                                                               sorted(extra, key=repr)[:3], other),
                           case=case)
     # size tightness on the same random tables (incl. zero-token values)
     m, t = fspec['measure'], fspec['threshold']
